@@ -17,7 +17,7 @@ import vlib
 
 META = {
     "category": "proof",
-    "text": "Coq theorems (Gc/Props_C05.v, closed under the global context). FIRST HALF, over area Lsm's tree model: for every admissible compaction and every cut of the sorted merge of its inputs into non-empty files, Permutation (file_entries (apply_compaction v c outs)) (file_entries v); perform_compaction's loop through a model of SstMultiBuilder (arbitrary size thresholds, arbitrary split hints) writes every entry exactly once, in order, no empty file, and its outputs are such a cut. SECOND HALF, over an executable model of sst/src/gc.rs (policy AST, the stateful boxed determiners, GarbageCollector::next with key tracking, tombstone buffer, two-step return; a literal loop-by-loop transcription proved equal) and of the loop of lsmtk perform_garbage_collection: for every policy (versions/ttl/any/all nesting), every clock value, every input with adjacent equal keys the collector returns exactly what a cursor-free specification retains; on strictly sorted merged inputs the walk never goes out of sync, writes exactly the specified entries, discard is the setsum of exactly the dropped ones, input = output + discard; with versions = N (and every policy that retains a sole newest version, as lsmtk evaluates it) every key reads after a GC as before; GC only at the last level. JOINED to Lsm: the merged inputs of an admissible top-level compaction of an Ordered store are strictly sorted, what the collector retains is accepted by Lsm's gc_outputs_okb (so Lsm's gc_preserves_reads applies), the closure precondition of the tree-level read theorem follows from Ordered + valid_compactionb, and tree entries after + dropped = tree entries before. Tied to the code by 4-way differential runs (real Rust vs extracted model vs extracted spec vs independent Python semantics), walks over real SST files (also with duplicate key/timestamp pairs across files), the real SstMultiBuilder, and real lsmtk stores single-stepped through moves, non-GC merges (also above last-level data and with more than ten outputs) and garbage collections, comparing complete multi-version dumps as multisets, the key order of every level, and the store's own gets after every step.",
+    "text": "Coq theorems (Gc/Props_C05.v, closed under the global context). FIRST HALF, over area Lsm's tree model: for every admissible compaction and every cut of the sorted merge of its inputs into non-empty files, Permutation (file_entries (apply_compaction v c outs)) (file_entries v); perform_compaction's loop through a model of SstMultiBuilder (arbitrary size thresholds, arbitrary split hints) writes every entry exactly once, in order, no empty file, and its outputs are such a cut. SECOND HALF, over an executable model of sst/src/gc.rs (policy AST, the stateful boxed determiners, GarbageCollector::next with key tracking, tombstone buffer, two-step return; a literal loop-by-loop transcription proved equal) and of the loop of lsmtk perform_garbage_collection: for every policy (versions/ttl/any/all nesting), every clock value, every input with adjacent equal keys the collector returns exactly what a cursor-free specification retains; on strictly sorted merged inputs the walk never goes out of sync, writes exactly the specified entries, discard is the setsum of exactly the dropped ones, input = output + discard; with versions = N (and every policy that retains a sole newest version, as lsmtk evaluates it) every key reads after a GC as before; GC only at the last level. JOINED to Lsm: the merged inputs of an admissible top-level compaction of an Ordered store are strictly sorted, what the collector retains is accepted by Lsm's gc_outputs_okb (so Lsm's gc_preserves_reads applies), the closure precondition of the tree-level read theorem follows from Ordered + valid_compactionb, and tree entries after + dropped = tree entries before. Tied to the code by 4-way differential runs (real Rust vs extracted model vs extracted spec vs independent Python semantics), walks over real SST files (also with duplicate key/timestamp pairs across files), the real SstMultiBuilder, and real lsmtk stores single-stepped through moves, non-GC merges (also above last-level data and with more than ten outputs) and garbage collections, comparing complete multi-version dumps as multisets, the key order of every level, and the store's own gets after every step. Store sessions also read every stored version back AT its own timestamp through the tree (hook verif_load_at): an entry in a file of the tree is what a reader at that timestamp sees.",
     "note": "Coverage of the store sessions is gated: a run without a non-GC merge, without a tombstone that has nothing beneath it in such a merge, or without a merge of more than ten outputs is a machinery error, not a pass.  Trusted: Coq kernel; extraction + ocaml/gc driver; harness c05/lsm; the nom parser is compared with a reference parser on generated strings, not proved; cursors are modelled as lists (I/O errors of next() outside the model); builder sizes are arbitrary predicates in the multi-builder model; the selector is area Lsm's subject (its admissibility predicate is a hypothesis here); SHA3-256 is an arbitrary function to 32 bytes.  Known class: K-retain-nothing — a policy that does not retain even a sole newest version (e.g. `any()`) makes a GC drop current values, by the letter of the policy; Inputs with two entries of equal key AND timestamp are outside the property: the store's invariant excludes them (C05_merged_inputs_sorted; only a foreign ingest that C01's histories do not accept produces them); the walkm stage still compares implementation and extracted walk on them (a disagreement is a correspondence problem) and counts where the walk's entries differ from gc_spec as `duplicate_keyref_observations`.  The former class K1 (top-level GC over inputs not closed under overlap) was repaired by /repo 764f777; its reproduction stays in the corpus and a reappearance is a violation.",
 }
 
